@@ -810,6 +810,15 @@ class _ConstSubst(ast.NodeTransformer):
 
     visit_Tuple = visit_List
 
+    def visit_Compare(self, node):
+        node = self.generic_visit(node)
+        # k in {K1: V1, K2: V2} is k in (K1, K2)
+        if len(node.ops) == 1 and isinstance(node.ops[0], (ast.In, ast.NotIn)) and isinstance(node.comparators[0], ast.Dict) \
+                and node.comparators[0].keys and None not in node.comparators[0].keys:
+            node.comparators = [ast.copy_location(ast.Tuple(elts=list(node.comparators[0].keys), ctx=ast.Load()), node.comparators[0])]
+            self.changed = True
+        return node
+
     def visit_Dict(self, node):
         node = self.generic_visit(node)
         # {"a": x, **{"b": y}, "c": z} is {"a": x, "b": y, "c": z}
@@ -829,6 +838,10 @@ class _ConstSubst(ast.NodeTransformer):
     def visit_Call(self, node):
         node = self.generic_visit(node)
         node.args = self._splice(node.args)
+        # zip(a, b, strict=True) pairs like zip(a, b) (it only adds a length check that raises)
+        if isinstance(node.func, ast.Name) and node.func.id == "zip" and node.keywords and all(k.arg == "strict" for k in node.keywords):
+            node.keywords = []
+            self.changed = True
         # dict(zip(("a", "b"), (x, y))) is {"a": x, "b": y} (the value tuple written in place or bound once to a local name)
         for kw in node.keywords:
             v = kw.value
@@ -1067,6 +1080,7 @@ class _PostNorm(ast.NodeTransformer):
         self.changed = False
 
     visit_Dict = None
+    visit_Compare = None
     visit_Call = None
     visit_List = None
     visit_Tuple = None
@@ -1127,5 +1141,5 @@ def _flatten_helpers(ix, fi, depth=0, stack=()):
     return node
 
 
-for _m in ("visit_Dict", "visit_Call", "visit_List", "visit_Tuple", "visit_Subscript", "_splice"):
+for _m in ("visit_Dict", "visit_Call", "visit_List", "visit_Tuple", "visit_Subscript", "visit_Compare", "_splice"):
     setattr(_PostNorm, _m, getattr(_ConstSubst, _m))
